@@ -30,14 +30,16 @@ Proof. exact durable_prefix. Qed.
 Print Assumptions C16_durable_prefix.
 
 (* Once the last call of a commit's pointer publish has returned (the commit is acknowledged), and
-   for as long as no later commit starts, every power-loss outcome has the pointer naming that
-   commit's metadata file (whose reachable files are whole by C16_durable_prefix). *)
-Theorem C16_acked_durable : forall ops c, wf (ops ++ [OCommit c]) = true ->
+   for as long as no later commit advances the pointer -- through the cleanup of its markers and
+   through any number of later transactions that are rolled back -- every power-loss outcome has the
+   pointer naming that commit's metadata file (whose reachable files are whole by C16_durable_prefix). *)
+Theorem C16_acked_durable : forall ops c rest, forallb is_abort rest = true ->
+  wf (ops ++ OCommit c :: rest) = true ->
   forall n es, (length (trace_of ops ++ commit_body c) <= n)%nat ->
-  calls_of es = firstn n (trace_of (ops ++ [OCommit c])) ->
+  calls_of es = firstn n (trace_of (ops ++ OCommit c :: rest)) ->
   exists s', run fs0 es = Some s'
     /\ pointer (power_loss s') = Some (pf_path (c_meta c)) /\ pointer (vol s') = Some (pf_path (c_meta c)).
-Proof. exact acked_durable. Qed.
+Proof. exact acked_durable_aborts. Qed.
 Print Assumptions C16_acked_durable.
 
 (* One publish sequence (write_file / DataFileWriter.close: Create temp, Write, Fsync, Rename,
